@@ -105,6 +105,22 @@ notes={
  'C18-L':'+ "+" sign / leading zeros on integer literals of filters; integers beyond 2^53 written as integers in the documents (and their neighbours)',
  'C19-L':'+ an evaluation with 1 100 ... 70 000 results right before a case of the long run (and as a C05 operation)',
  'C20-K':'+ the returned error is used as a value (map key, ==)',
+ 'C01-N':'+ the catalogue name "fboth" is registered both as a filter and as an aggregate function, in either order (a function step means the filter function; the order of registration is not part of what a Config says)',
+ 'C02-N':'+ a Config that also registers functions under names no path can spell (empty, with a blank or dot, non-ASCII)',
+ 'C03-M':'+ a retrieval in which a user function panics (recovered by the caller) right before 1 case in 23',
+ 'C05-N':'+ the caller\'s one Config object is used for Parse and for every fresh Retrieve; an unrelated retrieval is given that Config and a second one binding the same names to other functions',
+ 'C06-M':'+ retrievals in which a user function panics, recovered by their goroutine, among the operations of a scenario',
+ 'C06-N':'+ corpus paths with fnest / gnest (functions that call Retrieve themselves); regression cases run under the hang detector too; one confirmed hang per run, 40 s replay limit',
+ 'C07-N':'+ an array of 1025..1114 elements somewhere in the document and subscripts directly after a recursive descent; documents of every check get one array stretched beyond 1024 elements once in 250 cases',
+ 'C08-N':'+ a retrieval with a panicking user function (inside a filter operand among others) before some of the three retrievals',
+ 'C10-M':'+ TestC10_SharedCompare: one parsed comparison shared by goroutines on documents with other operand values (race build); also TestC06 corpus paths with a literal left of an ordering comparison with a root path',
+ 'C13-M':'+ every second null leaf of the C13 documents stays null',
+ 'C13-N':'+ TestC13_SharedAccessors: one accessor-mode subscript path shared by goroutines on arrays of different length; Get and Set checked against SPEC\'s indexes (race build)',
+ 'C14-N':'+ documents in which one container is reachable by two paths (C14)',
+ 'C15-M':'+ "%" in keys, string literals, regular expressions and the mutation alphabet',
+ 'C16-M':'+ arrays directly inside arrays in the nested document of C16',
+ 'C18-M':'+ a byte that is not UTF-8 written for U+FFFD in quoted and in dot spellings',
+ 'C19-M':'+ descriptors whose string literals / regular expressions hold backslash sequences, and a probe document that tells their readings apart',
  'C20-G':'+ defined types over float64 / string / bool and json.RawMessage among the opaque values',
 }
 rows=[]
